@@ -8,15 +8,15 @@ import (
 func c01Scenarios(tier core.Tier) []scenario {
 	d := 0
 	if tier == core.Thorough {
-		d = 1
+		d = 2
 	}
 	orcs := func() []chain.Oracle { return []chain.Oracle{chain.PureOracle{}} }
 	return []scenario{
-		{Name: "c01.kv", Universe: "U-kv", Depth: 7 + d, Orcs: orcs,
+		{Name: "c01.kv", Universe: "U-kv", Depth: 6 + d, Orcs: orcs,
 			Menu: chain.Menu{Recv: true, Sync: true, WalkSome: true, Play: true, Restart: true, Submit: []string{"pW1", "pR"}, Mine: 1}},
-		{Name: "c01.amt", Universe: "U-amt", Depth: 7 + d, Orcs: orcs,
+		{Name: "c01.amt", Universe: "U-amt", Depth: 6 + d, Orcs: orcs,
 			Menu: chain.Menu{Recv: true, Sync: true, WalkSome: true, Play: true, Restart: true, Submit: []string{"sA"}, Mine: 1}},
-		{Name: "c01.3way", Universe: "U-3way-honest", Depth: 6 + d, Orcs: orcs,
+		{Name: "c01.3way", Universe: "U-3way-honest", Depth: 5 + d, Orcs: orcs,
 			Menu: chain.Menu{Recv: true, Sync: true, WalkAll: true, Play: true, Restart: true}},
 	}
 }
@@ -24,15 +24,19 @@ func c01Scenarios(tier core.Tier) []scenario {
 func c02Scenarios(tier core.Tier) []scenario {
 	d := 0
 	if tier == core.Thorough {
-		d = 1
+		d = 2
 	}
 	orcs := func() []chain.Oracle { return []chain.Oracle{chain.ConservationOracle{}} }
 	return []scenario{
-		{Name: "c02.amt", Universe: "U-amt", Depth: 7 + d, Orcs: orcs,
+		{Name: "c02.amt", Universe: "U-amt", Depth: 5 + d, Orcs: orcs,
 			Menu: chain.Menu{Recv: true, Sync: true, WalkSome: true, Play: true, Restart: true, Submit: []string{"sA", "sA2", "sUnbalanced", "sFrozen"}, Mine: 1}},
-		{Name: "c02.3way", Universe: "U-3way", Depth: 6 + d, Orcs: orcs,
+		{Name: "c02.3way", Universe: "U-3way", Depth: 5 + d, Orcs: orcs,
 			Menu: chain.Menu{Recv: true, Sync: true, WalkSome: true, Play: true, Restart: true, Mine: 1}},
-		{Name: "c02.kv", Universe: "U-kv", Depth: 6 + d, Orcs: orcs,
+		{Name: "c02.family", Universe: "U-3way-honest", Depth: 6 + d, Orcs: orcs,
+			Menu: chain.Menu{Recv: true, Sync: true, Play: true, Submit: []string{"pP", "pC1", "pC2"}, Mine: 1, Blocks: []string{"a1", "b1"}}},
+		{Name: "c02.fee", Universe: "U-3way-honest", Depth: 6 + d, Orcs: orcs,
+			Menu: chain.Menu{Recv: true, Sync: true, WalkSome: true, KeyEvents: true, Submit: []string{"sFee"}, Blocks: []string{"a1", "a2", "d2"}}},
+		{Name: "c02.kv", Universe: "U-kv", Depth: 5 + d, Orcs: orcs,
 			Menu: chain.Menu{Recv: true, Sync: true, WalkSome: true, Submit: []string{"pW1", "pW2"}, Mine: 1}},
 	}
 }
